@@ -149,6 +149,20 @@ def check_minified(prog, src, config, res, fam, obj, out):
                           src, out, i, outsig[i].text if i < len(outsig) else None,
                           insig[i].text if i < len(insig) else None, len(outsig), len(insig)), case)
         return None
+    # "identifiers differing at most by the renaming": one consistent, injective map per program
+    fwd, bwd = {}, {}
+    for x, y in zip(insig, outsig):
+        if x.kind != 'name':
+            continue
+        if fwd.setdefault(x.text, y.text) != y.text:
+            res.violation('C01|renaming-not-a-function|%s' % config, 'luamin(%r, %s) = %r: %r became both %r and %r' % (
+                src, config, out, x.text, fwd[x.text], y.text), case)
+            return None
+        if bwd.setdefault(y.text, x.text) != x.text:
+            res.violation('C01|renaming-merges-identifiers|%s' % config,
+                          'luamin(%r, %s) = %r: the different identifiers %r and %r both became %r' % (
+                              src, config, out, bwd[y.text], x.text, y.text), case)
+            return None
     # later comments may be dropped but comments never appear from code: every output comment is an input comment
     incom = [t.text for t in intoks if t.kind == 'comment']
     for t in outtoks:
